@@ -27,7 +27,8 @@ WALL = {"quick": 1200, "thorough": 10800}
 MAX_TIMEOUTS = {"quick": 1, "thorough": 20}
 REQUIRED = {"build_files": 300, "residue_selections_checked": 5000, "molecule_blocks": 600, "ranges_spanning_other_names": 100,
             "start_specs": 150, "ligand_specs": 100, "ligands_built": 40, "split_specs": 100, "distance_restraint_blocks": 100,
-            "persistence_blocks": 60, "multi_residue_ligands": 15, "split_with_start_runs": 20, "ligand_specs_without_host_molecule": 10}
+            "persistence_blocks": 60, "multi_residue_ligands": 15, "split_with_start_runs": 20, "ligand_specs_without_host_molecule": 10,
+            "split_runs_with_a_string_for_an_absent_residue": 30}
 _done = False
 
 
@@ -432,8 +433,14 @@ def run_split(rng, workdir, res):
     top = load(text, workdir)
     mm = top.molecules[0]
     before = [(mm.molecule.nodes[n]["atomname"], mm.molecule.nodes[n]["resname"], mm.molecule.nodes[n]["resid"]) for n in sorted(mm.molecule.nodes)]
+    specs = [spec]
+    if rng.random() < 0.4:
+        # a further split string for a residue of another molecule type: it selects nothing here, whichever comes first
+        specs.insert(rng.randint(0, 1), "RZ:Q0-Z0:Q1-Z1,Z2")
+        bump(res, "split_runs_with_a_string_for_an_absent_residue")
+        w["split"] = specs
     try:
-        mm.split_residue([spec])
+        mm.split_residue(specs)
     except Exception as err:      # noqa
         if type(err).__name__ == "CaseTimeout":
             raise
